@@ -402,6 +402,15 @@ Section Worker.
                       | None => true
                       end) (fs_collect f inp).
 
+  (** every source transforms successfully at every [Process] of the history *)
+  Fixpoint always_healthy (f : fs) (c : cfg) (h : list event) : bool :=
+    match h with
+    | [] => true
+    | e :: h' =>
+      (match e with Process => healthy c f | _ => true end)
+      && always_healthy (user_step f e) (match e with SetCfg c' => c' | _ => c end) h'
+    end.
+
   (** * The watcher contract: every change is reported before the next [Process]
 
       Three kinds of unreported change are tracked along the history:
